@@ -399,10 +399,54 @@ func ruleR10d(c *Ctx) {
 		}
 		args := map[string]bool{}
 		calls := 0
+		// helpers that hand their own bool parameter on to writeFingerprint as the brace setting
+		forwards := map[*types.Func]int{}
+		for _, hd := range c.allFuncDecls("soymsg") {
+			if hd == wf {
+				continue
+			}
+			pidx := -1
+			var pobj types.Object
+			i := 0
+			for _, fl := range hd.Type.Params.List {
+				for _, nm := range fl.Names {
+					if b, ok := winfo.Defs[nm].Type().Underlying().(*types.Basic); ok && b.Kind() == types.Bool {
+						pidx, pobj = i, winfo.Defs[nm]
+					}
+					i++
+				}
+			}
+			if pidx < 0 {
+				continue
+			}
+			inner, fwd := 0, 0
+			ast.Inspect(hd.Body, func(y ast.Node) bool {
+				if call, ok := y.(*ast.CallExpr); ok && calleeFunc(call, winfo) == winfo.Defs[wf.Name] && len(call.Args) == 3 {
+					inner++
+					if id, ok := ast.Unparen(call.Args[2]).(*ast.Ident); ok && winfo.Uses[id] == pobj {
+						fwd++
+					}
+				}
+				return true
+			})
+			if inner > 0 && inner == fwd {
+				if hfn, ok := winfo.Defs[hd.Name].(*types.Func); ok {
+					forwards[hfn] = pidx
+				}
+			}
+		}
 		ast.Inspect(cc, func(y ast.Node) bool {
-			if call, ok := y.(*ast.CallExpr); ok && calleeFunc(call, winfo) == winfo.Defs[wf.Name] && len(call.Args) == 3 {
+			call, ok := y.(*ast.CallExpr)
+			if !ok {
+				return true
+			}
+			cal := calleeFunc(call, winfo)
+			if cal == winfo.Defs[wf.Name] && len(call.Args) == 3 {
 				calls++
 				args[exprKey(call.Args[2])] = true
+			} else if idx, ok := forwards[cal]; ok && idx < len(call.Args) {
+				calls++
+				args[exprKey(call.Args[idx])] = true
 			}
 			return true
 		})
@@ -424,51 +468,139 @@ func ruleR10f(c *Ctx) {
 	info := p.TypesInfo
 	astPkg := c.pkg("ast")
 	nodeIface := astPkg.Types.Scope().Lookup("Node").Type().Underlying().(*types.Interface)
-	isNodeString := func(e ast.Expr) bool {
-		e = resolveLocalInit(e, fd.Body, info)
+	// e is X.String() (possibly through a local initialised to it) for a node X; returns X's text
+	nodeStringOf := func(e ast.Expr, scope ast.Node) (string, bool) {
+		e = resolveLocalInit(e, scope, info)
 		call, ok := ast.Unparen(e).(*ast.CallExpr)
 		if !ok || len(call.Args) != 0 {
-			return false
+			return "", false
 		}
 		se, ok := call.Fun.(*ast.SelectorExpr)
 		if !ok || se.Sel.Name != "String" {
-			return false
+			return "", false
 		}
 		tv, ok := info.Types[se.X]
 		if !ok {
+			return "", false
+		}
+		if _, isIface := tv.Type.Underlying().(*types.Interface); !isIface || !types.Implements(tv.Type, nodeIface) {
+			return "", false
+		}
+		return exprKey(se.X), true
+	}
+	// the if whose condition is equality of two nodes' complete printed text, one of them being `who`
+	selectsByFullString := func(cond ast.Expr, who string, scope ast.Node) bool {
+		be, ok := ast.Unparen(cond).(*ast.BinaryExpr)
+		if !ok || be.Op != token.EQL {
 			return false
 		}
-		_, isIface := tv.Type.Underlying().(*types.Interface)
-		return isIface && types.Implements(tv.Type, nodeIface)
+		a, okA := nodeStringOf(be.X, scope)
+		b, okB := nodeStringOf(be.Y, scope)
+		return okA && okB && (a == who || b == who)
 	}
-	n := 0
-	// the equivalence test: an == inside a loop over representative nodes whose true branch records an equivalence
-	ast.Inspect(fd.Body, func(x ast.Node) bool {
-		ifs, ok := x.(*ast.IfStmt)
-		if !ok {
-			return true
-		}
-		records := false
-		ast.Inspect(ifs.Body, func(y ast.Node) bool {
-			if as, ok := y.(*ast.AssignStmt); ok && len(as.Lhs) == 1 {
-				if ix, ok := as.Lhs[0].(*ast.IndexExpr); ok {
-					if tv, ok := info.Types[ix.X]; ok {
-						if m, ok := tv.Type.Underlying().(*types.Map); ok && types.Implements(m.Key(), nodeIface) {
-							records = true
-						}
-					}
+	// enclosing if statements of every node of a body
+	enclosing := func(body ast.Node, target ast.Node) []*ast.IfStmt {
+		var out, stack []*ast.IfStmt
+		var all []ast.Node
+		ast.Inspect(body, func(x ast.Node) bool {
+			if x == nil {
+				top := all[len(all)-1]
+				all = all[:len(all)-1]
+				if _, ok := top.(*ast.IfStmt); ok {
+					stack = stack[:len(stack)-1]
 				}
+				return true
+			}
+			all = append(all, x)
+			if ifs, ok := x.(*ast.IfStmt); ok {
+				stack = append(stack, ifs)
+			}
+			if x == target {
+				out = append([]*ast.IfStmt{}, stack...)
 			}
 			return true
 		})
-		if !records {
+		return out
+	}
+	byFunc := map[*types.Func]*ast.FuncDecl{}
+	for _, d := range c.allFuncDecls("soymsg") {
+		if fn, ok := info.Defs[d.Name].(*types.Func); ok {
+			byFunc[fn] = d
+		}
+	}
+	n := 0
+	ast.Inspect(fd.Body, func(x ast.Node) bool {
+		as, ok := x.(*ast.AssignStmt)
+		if !ok || len(as.Lhs) != 1 || len(as.Rhs) != 1 {
+			return true
+		}
+		ix, ok := as.Lhs[0].(*ast.IndexExpr)
+		if !ok {
+			return true
+		}
+		tv, ok := info.Types[ix.X]
+		if !ok {
+			return true
+		}
+		m, ok := tv.Type.Underlying().(*types.Map)
+		if !ok || !types.Implements(m.Key(), nodeIface) || !types.Implements(m.Elem(), nodeIface) {
 			return true
 		}
 		n++
-		be, ok := ast.Unparen(ifs.Cond).(*ast.BinaryExpr)
-		c.check(ok && be.Op == token.EQL && isNodeString(be.X) && isNodeString(be.Y), "R10f", "soymsg.setPlaceholderNames placeholder-equivalence", ifs.Pos(),
+		key := "soymsg.setPlaceholderNames placeholder-equivalence"
+		if n > 1 {
+			key += "#" + itoa(n)
+		}
+		val := exprKey(as.Rhs[0])
+		good, why := false, "the node recorded as equivalent ("+val+") was not selected by comparing complete printed texts"
+		// (a) the store sits under such a test
+		for _, ifs := range enclosing(fd.Body, as) {
+			inThen := false
+			ast.Inspect(ifs.Body, func(y ast.Node) bool {
+				if y == ast.Node(as) {
+					inThen = true
+				}
+				return true
+			})
+			if inThen && selectsByFullString(ifs.Cond, val, fd.Body) {
+				good = true
+			}
+		}
+		// (b) the value comes from a helper whose every non-nil return is selected that way
+		if !good {
+			def := resolveLocalInit(as.Rhs[0], fd.Body, info)
+			if call, ok := ast.Unparen(def).(*ast.CallExpr); ok {
+				if hd := byFunc[calleeFunc(call, info)]; hd != nil {
+					rets, okRets := 0, 0
+					ast.Inspect(hd.Body, func(y ast.Node) bool {
+						r, ok := y.(*ast.ReturnStmt)
+						if !ok || len(r.Results) != 1 {
+							return true
+						}
+						if id, ok := ast.Unparen(r.Results[0]).(*ast.Ident); ok && id.Name == "nil" {
+							return true
+						}
+						rets++
+						rv := exprKey(r.Results[0])
+						for _, ifs := range enclosing(hd.Body, r) {
+							if selectsByFullString(ifs.Cond, rv, hd.Body) {
+								okRets++
+								break
+							}
+						}
+						return true
+					})
+					if rets > 0 && rets == okRets {
+						good = true
+					} else {
+						why = "the node recorded as equivalent comes from " + hd.Name.Name + ", which does not return only nodes whose complete printed text equals the other's"
+					}
+				}
+			}
+		}
+		c.check(good, "R10f", key, as.Pos(),
 			"two placeholders are merged only when their complete printed source (expression and directives) is equal",
-			"placeholders are merged on "+exprKey(ifs.Cond)+", which is not equality of the complete printed text of both nodes: placeholders that differ (for instance only in their print directives) share one name, and a translated message renders the first one for both")
+			why+": placeholders that differ (for instance only in their print directives) share one name, and a translated message renders the first one for both")
 		return true
 	})
 	c.floor("R10f", "placeholder equivalence tests", 1, n)
